@@ -1,6 +1,1284 @@
-//! C05 — stub (monitor not built yet).
-use crate::core::Ctx;
+//! C05 — built objects decode back to themselves and look the same either way.
+//!
+//! Workload: builder inputs that conform to the object profiles (generators
+//! in `c05_gen`), driven through the library's own builders with the pool
+//! signer. Oracle per object:
+//!
+//!  1. the encoding of the built object is accepted by the library's decoder
+//!     in strict mode and by its validator under the issuing certificate /
+//!     key at an instant inside the validity window;
+//!  2. re-encoding the decoded object reproduces the bytes;
+//!  3. every row of the hand-written accessor table of the type (`c05_tab`)
+//!     gives the same answer on the built value and on its decoded twin, and
+//!     panics on neither.
+//!
+//! Nothing else is demanded. Answers are additionally compared with the
+//! builder inputs where the mapping is unambiguous; a difference there is
+//! recorded as an observation (`input_echo_mismatch`), except for CSRs where
+//! the builder returns bytes only and the inputs are the only "built" view.
+
+// Helper modules of this monitor (declared here so that lib.rs needs no change).
+#[path = "c05_gen.rs"]
+pub mod c05_gen;
+#[path = "c05_tab.rs"]
+pub mod c05_tab;
+
+use self::c05_gen as gen;
+use self::c05_gen::ResShape;
+use self::c05_tab as tab;
+use self::c05_tab::hex;
+use crate::core::{catch, panic_location, Ctx, Rng, Stage};
+use crate::keys::PoolSigner;
+use bytes::Bytes;
+use rpki::ca::csr::{Csr, RpkiCaCsr};
+use rpki::ca::idcert::IdCert;
+use rpki::ca::idexchange::{RecipientHandle, SenderHandle};
+use rpki::ca::provisioning::{Message as ProvMessage, ProvisioningCms};
+use rpki::ca::publication::{Base64, Message as PubMessage, Publish, PublicationCms, PublishDelta};
+use rpki::ca::sigmsg::SignedMessage;
+use rpki::crypto::keys::PublicKey;
+use rpki::crypto::signature::RpkiSignatureAlgorithm;
+use rpki::crypto::DigestAlgorithm;
+use rpki::repository::aspa::{Aspa, AspaBuilder};
+use rpki::repository::cert::{Cert, ExtendedKeyUsage, KeyUsage, Overclaim, ResourceCert, TbsCert};
+use rpki::repository::crl::{Crl, CrlEntry, TbsCertList};
+use rpki::repository::manifest::{FileAndHash, Manifest, ManifestContent};
+use rpki::repository::resources::{Asn, Prefix};
+use rpki::repository::roa::{Roa, RoaBuilder, RoaIpAddress, RoaIpAddressesBuilder};
+use rpki::repository::sigobj::{SignedObject, SignedObjectBuilder};
+use rpki::repository::tal::TalInfo;
+use rpki::repository::x509::{Serial, Time, Validity};
+use rpki::uri;
+use serde_json::{json, Value};
+use std::net::{IpAddr, Ipv4Addr, Ipv6Addr};
+use std::str::FromStr;
+use std::sync::Arc;
+
+const K_ISSUER: usize = 0;
+const K_SUBJECT: usize = 1;
+const K_ONE_OFF: usize = 2;
+const POOL: usize = 4;
+
+struct Env {
+    pool: PoolSigner,
+    tal: Arc<TalInfo>,
+    /// Validated trust anchor holding every resource; issues everything else.
+    ta: ResourceCert,
+    router_key: PublicKey,
+}
+
+fn setup(ctx: &mut Ctx) -> Option<Env> {
+    let pool = PoolSigner::new(POOL);
+    let tal = TalInfo::from_name("c05".into()).into_arc();
+    let k0 = pool.info(K_ISSUER);
+    let mut tbs = TbsCert::new(
+        Serial::from(1u64),
+        k0.to_subject_name(),
+        Validity::new(Time::utc(1, 1, 1, 0, 0, 0), Time::utc(9999, 12, 31, 23, 59, 59)),
+        None,
+        k0,
+        KeyUsage::Ca,
+        Overclaim::Refuse,
+    );
+    tbs.set_basic_ca(Some(true));
+    tbs.set_ca_repository(Some(uri::Rsync::from_str("rsync://ta.example/repo/").unwrap()));
+    tbs.set_rpki_manifest(Some(uri::Rsync::from_str("rsync://ta.example/repo/ta.mft").unwrap()));
+    tbs.build_v4_resource_blocks(|b| b.push(Prefix::new(0, 0)));
+    tbs.build_v6_resource_blocks(|b| b.push(Prefix::new(0, 0)));
+    tbs.build_as_resource_blocks(|b| b.push((Asn::MIN, Asn::MAX)));
+    let res = catch(|| {
+        let cert = tbs.into_cert(&pool, &K_ISSUER).map_err(|e| e.to_string())?;
+        cert.validate_ta_at(tal.clone(), true, Time::utc(2026, 1, 1, 0, 0, 0)).map_err(|e| e.to_string())
+    });
+    let ta = match res {
+        Ok(Ok(ta)) => ta,
+        other => {
+            ctx.notes.push(format!("C05: could not set up the issuing trust anchor ({:?}); nothing observed", other.err().or_else(|| Some("validation error".into()))));
+            return None;
+        }
+    };
+    let router_key = match PublicKey::decode(crate::keys::p256_spki().as_slice()) {
+        Ok(k) => k,
+        Err(e) => {
+            ctx.notes.push(format!("C05: could not create a P-256 router key: {}", e));
+            return None;
+        }
+    };
+    Some(Env { pool, tal, ta, router_key })
+}
+
+//------------ common oracle steps -------------------------------------------
+
+struct Case<'a> {
+    kind: &'static str,
+    inputs: &'a Value,
+}
+
+impl Case<'_> {
+    fn detail(&self, der: &[u8]) -> Value {
+        json!({"kind": self.kind, "inputs": self.inputs, "der": hex(der)})
+    }
+}
+
+fn builder_failed(ctx: &mut Ctx, case: &Case, what: &str, err: Result<String, String>) {
+    match err {
+        Ok(e) => ctx.violation(
+            &format!("C05:builder-error:{}", case.kind),
+            &format!("{}: {} returned an error for profile-conforming inputs: {}", case.kind, what, e),
+            json!({"kind": case.kind, "inputs": case.inputs}),
+        ),
+        Err(p) => {
+            ctx.obs("panics_caught", 1);
+            ctx.violation(
+                &format!("C05:builder-panic:{}", case.kind),
+                &format!("{}: {} panics for profile-conforming inputs ({})", case.kind, what, panic_location(&p)),
+                json!({"kind": case.kind, "inputs": case.inputs, "panic": p}),
+            )
+        }
+    }
+}
+
+/// Runs a builder under catch_unwind. `None` = a violation was recorded.
+fn build<T>(ctx: &mut Ctx, case: &Case, what: &str, f: impl FnOnce() -> Result<T, String>) -> Option<T> {
+    match catch(f) {
+        Ok(Ok(v)) => {
+            ctx.obs("built", 1);
+            Some(v)
+        }
+        Ok(Err(e)) => {
+            builder_failed(ctx, case, what, Ok(e));
+            None
+        }
+        Err(p) => {
+            builder_failed(ctx, case, what, Err(p));
+            None
+        }
+    }
+}
+
+/// Oracle (1a): the decoder accepts.
+fn decode<T>(ctx: &mut Ctx, case: &Case, der: &[u8], f: impl FnOnce() -> Result<T, String>) -> Option<T> {
+    ctx.eval();
+    match catch(f) {
+        Ok(Ok(v)) => {
+            ctx.obs("decode_accepted", 1);
+            Some(v)
+        }
+        Ok(Err(e)) => {
+            ctx.obs("decode_rejected", 1);
+            ctx.violation(
+                &format!("C05:decode-rejected:{}", case.kind),
+                &format!("{}: the library's strict decoder rejects what its builder produced: {}", case.kind, e),
+                case.detail(der),
+            );
+            None
+        }
+        Err(p) => {
+            ctx.obs("panics_caught", 1);
+            ctx.violation(
+                &format!("C05:decode-panic:{}", case.kind),
+                &format!("{}: decoding the builder output panics ({})", case.kind, panic_location(&p)),
+                json!({"panic": p, "case": case.detail(der)}),
+            );
+            None
+        }
+    }
+}
+
+/// Oracle (1b): the validator accepts at an instant inside the window.
+fn validate(ctx: &mut Ctx, case: &Case, der: &[u8], at: &str, f: impl FnOnce() -> Result<(), String>) -> bool {
+    ctx.eval();
+    match catch(f) {
+        Ok(Ok(())) => {
+            ctx.obs("validate_accepted", 1);
+            true
+        }
+        Ok(Err(e)) => {
+            ctx.obs("validate_rejected", 1);
+            ctx.violation(
+                &format!("C05:validate-rejected:{}", case.kind),
+                &format!("{}: the library's validator rejects what its builder produced (at {}): {}", case.kind, at, e),
+                json!({"at": at, "case": case.detail(der)}),
+            );
+            false
+        }
+        Err(p) => {
+            ctx.obs("panics_caught", 1);
+            ctx.violation(
+                &format!("C05:validate-panic:{}", case.kind),
+                &format!("{}: validating the builder output panics ({})", case.kind, panic_location(&p)),
+                json!({"panic": p, "case": case.detail(der)}),
+            );
+            false
+        }
+    }
+}
+
+/// Oracle (2): re-encoding the decoded value gives the same bytes.
+fn reencode(ctx: &mut Ctx, case: &Case, der: &[u8], f: impl FnOnce() -> Vec<u8>) -> bool {
+    ctx.eval();
+    match catch(f) {
+        Ok(again) => {
+            if again == der {
+                ctx.obs("reencode_identical", 1);
+                true
+            } else {
+                let at = again.iter().zip(der.iter()).position(|(a, b)| a != b).unwrap_or(again.len().min(der.len()));
+                ctx.violation(
+                    &format!("C05:reencode-differs:{}", case.kind),
+                    &format!("{}: re-encoding the decoded object does not reproduce the bytes (first difference at {})", case.kind, at),
+                    json!({"reencoded": hex(&again), "first_difference_at": at, "case": case.detail(der)}),
+                );
+                false
+            }
+        }
+        Err(p) => {
+            ctx.obs("panics_caught", 1);
+            ctx.violation(
+                &format!("C05:reencode-panic:{}", case.kind),
+                &format!("{}: re-encoding the decoded object panics ({})", case.kind, panic_location(&p)),
+                json!({"panic": p, "case": case.detail(der)}),
+            );
+            false
+        }
+    }
+}
+
+fn echo(ctx: &mut Ctx, what: &str, ok: bool) {
+    ctx.obs("input_echo_checks", 1);
+    if !ok {
+        ctx.obs("input_echo_mismatch", 1);
+        ctx.obs(&format!("input_echo_mismatch:{}", what), 1);
+    }
+}
+
+/// Registers the case classes of one object (DESIGN §10): the joint, coarse
+/// field-shape vector of the object and the fine class of every field on
+/// its own.
+fn classes(ctx: &mut Ctx, kind: &str, joint: &[&str], fine: &[(&str, &str)]) {
+    ctx.sig(&format!("{}|{}", kind, joint.join("|")));
+    for (field, class) in fine {
+        ctx.sig(&format!("{}:{}={}", kind, field, class));
+    }
+}
+
+fn size_class(n: usize) -> &'static str {
+    match n {
+        0 => "0",
+        1 => "1",
+        2..=9 => "2-9",
+        10..=99 => "10-99",
+        _ => ">=100",
+    }
+}
+
+//------------ certificates ---------------------------------------------------
+
+#[derive(Clone, Copy, PartialEq)]
+enum CertKind {
+    Ta,
+    Ca,
+    Ee,
+    DetachedEe,
+    Router,
+}
+
+fn res_triple(rng: &mut Rng, allow_inherit: bool) -> ([ResShape; 3], [String; 3]) {
+    loop {
+        let (v4, c4) = gen::res_shape(rng, 32, allow_inherit);
+        let (v6, c6) = gen::res_shape(rng, 128, allow_inherit);
+        let (asn, ca) = gen::res_shape(rng, 32, allow_inherit);
+        let any = [&v4, &v6, &asn].iter().any(|s| !matches!(s, ResShape::Missing));
+        if any {
+            return ([v4, v6, asn], [c4, c6, ca]);
+        }
+    }
+}
+
+fn do_cert(ctx: &mut Ctx, env: &Env, rng: &mut Rng, which: CertKind) {
+    let kind: &'static str = match which {
+        CertKind::Ta => "cert-ta",
+        CertKind::Ca => "cert-ca",
+        CertKind::Ee => "cert-ee",
+        CertKind::DetachedEe => "cert-detached-ee",
+        CertKind::Router => "cert-router",
+    };
+    let (serial, serial_class) = gen::serial(rng);
+    let win = gen::window(rng);
+    let router = which == CertKind::Router;
+    let (subject, subject_class, subject_json) = gen::name(rng, router);
+    let (issuer_custom, issuer_class, issuer_json) = gen::name(rng, false);
+    let overclaim = if rng.bool() { Overclaim::Refuse } else { Overclaim::Trim };
+    let (shapes, res_class) = if router {
+        let (r, c) = gen::canonical_ranges(rng, 32);
+        ([ResShape::Missing, ResShape::Missing, ResShape::Blocks(r)], ["missing".to_string(), "missing".to_string(), c])
+    } else {
+        res_triple(rng, which != CertKind::Ta)
+    };
+    let crl_uri = gen::rsync(rng, false, "crl");
+    let ca_issuer = gen::rsync(rng, false, "cer");
+    let ca_repo = gen::rsync(rng, true, "");
+    let mft = gen::rsync(rng, false, "mft");
+    let so_ext = *rng.pick(&["roa", "mft", "asa", "gbr"]);
+    let so = gen::rsync(rng, false, so_ext);
+    let notify = if rng.bool() { Some(gen::https(rng)) } else { None };
+    let aki_on_ta = rng.bool();
+
+    let (subject_key, signing_key) = match which {
+        CertKind::Ta => (env.pool.info(K_SUBJECT), K_SUBJECT),
+        CertKind::Ca => (env.pool.info(K_SUBJECT), K_ISSUER),
+        CertKind::Ee | CertKind::DetachedEe => (env.pool.info(K_ONE_OFF), K_ISSUER),
+        CertKind::Router => (env.router_key.clone(), K_ISSUER),
+    };
+    let signer_key_info = env.pool.info(signing_key);
+    let v4 = gen::ip_resources(rng, &match &shapes[0] {
+        ResShape::Blocks(b) => ResShape::Blocks(gen::v4_to_lib(b)),
+        other => other.clone(),
+    });
+    let v6 = gen::ip_resources(rng, &shapes[1]);
+    let asr = gen::as_resources(rng, &shapes[2]);
+    ctx.drain_chain_hook(|| json!({"kind": kind, "v4": shapes[0].json(), "v6": shapes[1].json(), "as": shapes[2].json()}));
+
+    let inputs = json!({
+        "serial": gen::serial_json(serial), "validity": gen::validity_json(win.validity), "validate_at": gen::time_str(win.at),
+        "subject_name_der": subject_json, "issuer_name_der": issuer_json, "overclaim": format!("{:?}", overclaim),
+        "v4": shapes[0].json(), "v6": shapes[1].json(), "as": shapes[2].json(),
+        "crl_uri": crl_uri.as_str(), "ca_issuer": ca_issuer.as_str(), "ca_repository": ca_repo.as_str(),
+        "rpki_manifest": mft.as_str(), "signed_object": so.as_str(), "rpki_notify": notify.as_ref().map(|u| u.as_str().to_string()),
+        "aki_on_ta": aki_on_ta,
+    });
+    let case = Case { kind, inputs: &inputs };
+
+    // issuer name: for a TA the issuer is the subject; otherwise the issuing
+    // key's default name or a custom one (names carry no meaning in the RPKI)
+    let subject_name = subject.clone().unwrap_or_else(|| subject_key.to_subject_name());
+    let issuer_name = match which {
+        CertKind::Ta => subject_name.clone(),
+        _ => issuer_custom.unwrap_or_else(|| signer_key_info.to_subject_name()),
+    };
+    let built = build(ctx, &case, "TbsCert::new/into_cert", || {
+        let mut tbs = TbsCert::new(
+            serial,
+            issuer_name,
+            win.validity,
+            subject.clone(),
+            subject_key.clone(),
+            if matches!(which, CertKind::Ta | CertKind::Ca) { KeyUsage::Ca } else { KeyUsage::Ee },
+            overclaim,
+        );
+        match which {
+            CertKind::Ta => {
+                tbs.set_basic_ca(Some(true));
+                if aki_on_ta {
+                    tbs.set_authority_key_identifier(Some(subject_key.key_identifier()));
+                }
+                tbs.set_ca_repository(Some(ca_repo.clone()));
+                tbs.set_rpki_manifest(Some(mft.clone()));
+                tbs.set_rpki_notify(notify.clone());
+            }
+            CertKind::Ca => {
+                tbs.set_basic_ca(Some(true));
+                tbs.set_authority_key_identifier(Some(signer_key_info.key_identifier()));
+                tbs.set_crl_uri(Some(crl_uri.clone()));
+                tbs.set_ca_issuer(Some(ca_issuer.clone()));
+                tbs.set_ca_repository(Some(ca_repo.clone()));
+                tbs.set_rpki_manifest(Some(mft.clone()));
+                tbs.set_rpki_notify(notify.clone());
+            }
+            CertKind::Ee | CertKind::DetachedEe => {
+                tbs.set_authority_key_identifier(Some(signer_key_info.key_identifier()));
+                tbs.set_crl_uri(Some(crl_uri.clone()));
+                tbs.set_ca_issuer(Some(ca_issuer.clone()));
+                if which == CertKind::Ee {
+                    tbs.set_signed_object(Some(so.clone()));
+                }
+            }
+            CertKind::Router => {
+                tbs.set_authority_key_identifier(Some(signer_key_info.key_identifier()));
+                tbs.set_crl_uri(Some(crl_uri.clone()));
+                tbs.set_ca_issuer(Some(ca_issuer.clone()));
+                tbs.set_extended_key_usage(Some(ExtendedKeyUsage::create_router()));
+            }
+        }
+        tbs.set_v4_resources(v4);
+        tbs.set_v6_resources(v6);
+        tbs.set_as_resources(asr);
+        tbs.into_cert(&env.pool, &signing_key).map_err(|e| e.to_string())
+    });
+    let Some(built) = built else { return };
+    let Some(der) = build(ctx, &case, "Cert::to_captured", || Ok(built.to_captured().into_bytes().to_vec())) else { return };
+
+    classes(
+        ctx,
+        kind,
+        &[
+            gen::serial_coarse(serial),
+            &win.enc,
+            if subject.is_some() { "subject custom" } else { "subject default" },
+            shapes[0].class(),
+            shapes[1].class(),
+            shapes[2].class(),
+        ],
+        &[
+            ("serial", &serial_class),
+            ("time", &win.class),
+            ("subject", &subject_class),
+            ("issuer", if which == CertKind::Ta { "=subject" } else { &issuer_class }),
+            ("v4", &res_class[0]),
+            ("v6", &res_class[1]),
+            ("as", &res_class[2]),
+            ("overclaim", &format!("{:?}", overclaim)),
+            ("notify", if notify.is_some() { "yes" } else { "no" }),
+        ],
+    );
+
+    let Some(decoded) = decode(ctx, &case, &der, || Cert::decode(der.as_slice()).map_err(|e| e.to_string())) else { return };
+    let at = win.at;
+    let at_s = gen::time_str(at);
+    {
+        let d = decoded.clone();
+        validate(ctx, &case, &der, &at_s, || match which {
+            CertKind::Ta => d.validate_ta_at(env.tal.clone(), true, at).map(|_| ()).map_err(|e| e.to_string()),
+            CertKind::Ca => d.validate_ca_at(&env.ta, true, at).map(|_| ()).map_err(|e| e.to_string()),
+            CertKind::Ee => d.validate_ee_at(&env.ta, true, at).map(|_| ()).map_err(|e| e.to_string()),
+            CertKind::DetachedEe => d.validate_detached_ee_at(&env.ta, true, at).map(|_| ()).map_err(|e| e.to_string()),
+            CertKind::Router => d.validate_router_at(&env.ta, true, at).map_err(|e| e.to_string()),
+        });
+    }
+    ctx.drain_chain_hook(|| json!({"kind": kind, "phase": "validate", "inputs": inputs.clone()}));
+    reencode(ctx, &case, &der, || decoded.to_captured().into_bytes().to_vec());
+    let mut table = tab::cert_table(kind);
+    {
+        // the validator is an accessor too: same verdict and same resolved
+        // resources on the built value and on its decoded twin
+        let (ta, tal) = (env.ta.clone(), env.tal.clone());
+        tab::push_row(&mut table, "validate_at(window instant)", move |c: &Cert| {
+            let c = c.clone();
+            let r = match which {
+                CertKind::Ta => c.validate_ta_at(tal.clone(), true, at),
+                CertKind::Ca => c.validate_ca_at(&ta, true, at),
+                CertKind::Ee => c.validate_ee_at(&ta, true, at),
+                CertKind::DetachedEe => c.validate_detached_ee_at(&ta, true, at),
+                CertKind::Router => return format!("{:?}", c.validate_router_at(&ta, true, at).map_err(|e| e.to_string())),
+            };
+            match r {
+                Ok(rc) => tab::rescert(&rc),
+                Err(e) => format!("rejected: {}", e),
+            }
+        });
+    }
+    let (rows, bad) = tab::compare(ctx, &table, &built, &decoded, &|| case.detail(&der));
+    // inputs echoed by the decoded twin
+    echo(ctx, "cert.serial", decoded.serial_number() == serial);
+    echo(ctx, "cert.validity", decoded.validity() == win.validity);
+    echo(ctx, "cert.subject", *decoded.subject() == subject_name);
+    if which != CertKind::Ta {
+        echo(ctx, "cert.crl_uri", decoded.crl_uri().map(|u| u.as_str()) == Some(crl_uri.as_str()));
+    }
+    ctx.sample(kind, || {
+        json!({"inputs": inputs.clone(), "der_len": der.len(),
+               "observed": format!("decoded, validated at {}, re-encoded identically, {} accessor rows compared, {} differing", at_s, rows, bad)})
+    });
+}
+
+//------------ CRL -----------------------------------------------------------
+
+fn do_crl(ctx: &mut Ctx, env: &Env, rng: &mut Rng) {
+    let kind = "crl";
+    let n = match rng.below(8) {
+        0 | 1 => 0,
+        2 => 1,
+        3 => 2,
+        4 | 5 => 3 + rng.usize_below(20),
+        6 => 100 + rng.usize_below(200),
+        _ => 1 + rng.usize_below(60),
+    };
+    let mut entries: Vec<(Serial, Time)> = Vec::with_capacity(n);
+    let mut classes_of_entries = std::collections::BTreeSet::new();
+    for _ in 0..n {
+        let (s, c) = gen::serial(rng);
+        if n <= 2 {
+            classes_of_entries.insert(c);
+        }
+        entries.push((s, gen::time(rng)));
+    }
+    if n > 2 && rng.chance(1, 10) {
+        let d = entries[0];
+        entries.push(d); // the same certificate listed twice
+    }
+    let a = gen::time(rng);
+    let b = gen::time(rng);
+    let (this_update, next_update) = if a <= b { (a, b) } else { (b, a) };
+    let (crl_number, number_class) = gen::serial(rng);
+    let (issuer_custom, issuer_class, issuer_json) = gen::name(rng, false);
+    let k0 = env.pool.info(K_ISSUER);
+    let issuer = issuer_custom.unwrap_or_else(|| k0.to_subject_name());
+    let inputs = json!({
+        "this_update": gen::time_str(this_update), "next_update": gen::time_str(next_update),
+        "crl_number": gen::serial_json(crl_number), "issuer_name_der": issuer_json,
+        "entries": entries.iter().map(|(s, t)| json!([gen::serial_json(*s), gen::time_str(*t)])).collect::<Vec<_>>(),
+    });
+    let case = Case { kind, inputs: &inputs };
+    let list: Vec<CrlEntry> = entries.iter().map(|(s, t)| CrlEntry::new(*s, *t)).collect();
+    let built = build(ctx, &case, "TbsCertList::new/into_crl", || {
+        TbsCertList::new(
+            RpkiSignatureAlgorithm::default(),
+            issuer.clone(),
+            this_update,
+            next_update,
+            list,
+            k0.key_identifier(),
+            crl_number,
+        )
+        .into_crl(&env.pool, &K_ISSUER)
+        .map_err(|e| e.to_string())
+    });
+    let Some(built) = built else { return };
+    let Some(der) = build(ctx, &case, "Crl::to_captured", || Ok(built.to_captured().into_bytes().to_vec())) else { return };
+    use chrono::Datelike;
+    let enc = format!("{}/{}", gen::time_encoding(this_update.year()), gen::time_encoding(next_update.year()));
+    classes(
+        ctx,
+        kind,
+        &[size_class(entries.len()), gen::serial_coarse(crl_number), &enc],
+        &[("number", &number_class), ("issuer", &issuer_class), ("entry-serials", &format!("{:?}", classes_of_entries))],
+    );
+    let Some(decoded) = decode(ctx, &case, &der, || Crl::decode(der.as_slice()).map_err(|e| e.to_string())) else { return };
+    validate(ctx, &case, &der, "n/a (signature and issuer key identifier)", || {
+        decoded.verify_signature(&k0).map_err(|e| e.to_string())?;
+        if *decoded.authority_key_identifier() != k0.key_identifier() {
+            return Err("authority key identifier differs from the issuing key".into());
+        }
+        Ok(())
+    });
+    reencode(ctx, &case, &der, || decoded.to_captured().into_bytes().to_vec());
+    let mut probes: Vec<Serial> = entries.iter().map(|e| e.0).collect();
+    probes.truncate(64);
+    for _ in 0..4 {
+        probes.push(gen::serial(rng).0);
+    }
+    probes.push(Serial::default());
+    let mut table = tab::crl_table(probes);
+    {
+        let key = k0.clone();
+        tab::push_row(&mut table, "verify_signature(issuer key)", move |c: &Crl| format!("{:?}", c.verify_signature(&key).map_err(|e| e.to_string())));
+    }
+    let (rows, bad) = tab::compare(ctx, &table, &built, &decoded, &|| case.detail(&der));
+    let got: Vec<(Serial, Time)> = catch(|| decoded.revoked_certs().iter().map(|e| (e.user_certificate, e.revocation_date)).collect()).unwrap_or_default();
+    echo(ctx, "crl.entries", got == entries);
+    echo(ctx, "crl.number", decoded.crl_number() == crl_number);
+    ctx.sample(kind, || {
+        json!({"entries": entries.len(), "this_update": gen::time_str(this_update), "next_update": gen::time_str(next_update),
+               "crl_number": gen::serial_json(crl_number), "der_len": der.len(),
+               "observed": format!("decoded, signature verified, re-encoded identically, {} accessor rows compared, {} differing", rows, bad)})
+    });
+}
+
+//------------ signed objects -------------------------------------------------
+
+struct SigObjInputs {
+    builder: SignedObjectBuilder,
+    json: Value,
+    /// coarse joint class: EE serial shape and time types of the window
+    coarse: String,
+    /// fine classes per field
+    fine: Vec<(&'static str, String)>,
+    win: gen::Window,
+}
+
+fn fine_refs<'a>(fine: &'a [(&'static str, String)]) -> Vec<(&'static str, &'a str)> {
+    fine.iter().map(|(a, b)| (*a, b.as_str())).collect()
+}
+
+fn sigobj_inputs(env: &Env, rng: &mut Rng, ext: &str, around_now: bool) -> SigObjInputs {
+    let (serial, serial_class) = gen::serial(rng);
+    let win = if around_now { gen::window_around_now(rng) } else { gen::window(rng) };
+    let crl_uri = gen::rsync(rng, false, "crl");
+    let ca_issuer = gen::rsync(rng, false, "cer");
+    let so = gen::rsync(rng, false, ext);
+    let (issuer, issuer_class, issuer_json) = gen::name(rng, false);
+    let (subject, subject_class, subject_json) = gen::name(rng, false);
+    let signing_time = if rng.chance(1, 3) { win.at } else { gen::time(rng) };
+    let one_off = K_ONE_OFF + rng.usize_below(POOL - K_ONE_OFF);
+    env.pool.set_next_one_off(one_off);
+    let mut b = SignedObjectBuilder::new(serial, win.validity, crl_uri.clone(), ca_issuer.clone(), so.clone());
+    b.set_issuer(issuer);
+    b.set_subject(subject);
+    b.set_signing_time(signing_time);
+    use chrono::Datelike;
+    SigObjInputs {
+        builder: b,
+        json: json!({
+            "ee_serial": gen::serial_json(serial), "ee_validity": gen::validity_json(win.validity), "validate_at": gen::time_str(win.at),
+            "crl_uri": crl_uri.as_str(), "ca_issuer": ca_issuer.as_str(), "signed_object": so.as_str(),
+            "issuer_name_der": issuer_json, "subject_name_der": subject_json, "signing_time": gen::time_str(signing_time),
+            "one_off_key": one_off,
+        }),
+        coarse: format!("{}|{}", gen::serial_coarse(serial), win.enc),
+        fine: vec![
+            ("ee-serial", serial_class),
+            ("ee-time", win.class.clone()),
+            ("signing-time", gen::time_encoding(signing_time.year()).to_string()),
+            ("ee-issuer", issuer_class),
+            ("ee-subject", subject_class),
+        ],
+        win,
+    }
+}
+
+fn do_manifest(ctx: &mut Ctx, env: &Env, rng: &mut Rng) {
+    let kind = "manifest";
+    let n = match rng.below(8) {
+        0 => 0,
+        1 => 1,
+        2 => 2,
+        3 => 200,
+        4 => 100 + rng.usize_below(101),
+        _ => 3 + rng.usize_below(40),
+    };
+    let mut files: Vec<(Vec<u8>, Vec<u8>)> = (0..n).map(|_| (gen::mft_file_name(rng), rng.bytes(32))).collect();
+    if n > 1 && rng.chance(1, 8) {
+        files.sort();
+    }
+    let (number, number_class) = gen::serial(rng);
+    let a = gen::time(rng);
+    let b = if rng.chance(1, 10) { a } else { gen::time(rng) };
+    let (this_update, next_update) = if a <= b { (a, b) } else { (b, a) };
+    let so = sigobj_inputs(env, rng, "mft", false);
+    let base = gen::rsync(rng, true, "");
+    let inputs = json!({
+        "manifest_number": gen::serial_json(number), "this_update": gen::time_str(this_update), "next_update": gen::time_str(next_update),
+        "files": files.iter().map(|(f, h)| json!([String::from_utf8_lossy(f), hex(h)])).collect::<Vec<_>>(),
+        "signed_object": so.json, "iter_uris_base": base.as_str(),
+    });
+    let case = Case { kind, inputs: &inputs };
+    let win_at = so.win.at;
+    let builder = so.builder;
+    let built = build(ctx, &case, "ManifestContent::new/into_manifest", || {
+        let content = ManifestContent::new(
+            number,
+            this_update,
+            next_update,
+            DigestAlgorithm::default(),
+            files.iter().map(|(f, h)| FileAndHash::new(f.as_slice(), h.as_slice())),
+        );
+        content.into_manifest(builder, &env.pool, &K_ISSUER).map_err(|e| e.to_string())
+    });
+    let Some(built) = built else { return };
+    let Some(der) = build(ctx, &case, "Manifest::to_captured", || Ok(built.to_captured().into_bytes().to_vec())) else { return };
+    {
+        let mut fine = fine_refs(&so.fine);
+        fine.push(("number", &number_class));
+        classes(ctx, kind, &[size_class(n), gen::serial_coarse(number), &so.coarse], &fine);
+    }
+    let Some(decoded) = decode(ctx, &case, &der, || Manifest::decode(der.as_slice(), true).map_err(|e| e.to_string())) else { return };
+    let at_s = gen::time_str(win_at);
+    {
+        let d = decoded.clone();
+        validate(ctx, &case, &der, &at_s, || d.validate_at(&env.ta, true, win_at).map(|_| ()).map_err(|e| e.to_string()));
+    }
+    ctx.drain_chain_hook(|| json!({"kind": kind}));
+    reencode(ctx, &case, &der, || decoded.to_captured().into_bytes().to_vec());
+    let mut table = tab::manifest_table(base);
+    {
+        let ta = env.ta.clone();
+        tab::push_row(&mut table, "validate_at(window instant)", move |m: &Manifest| match m.clone().validate_at(&ta, true, win_at) {
+            Ok((rc, content)) => format!("{} files={}", tab::rescert(&rc), content.len()),
+            Err(e) => format!("rejected: {}", e),
+        });
+    }
+    let (rows, bad) = tab::compare(ctx, &table, &built, &decoded, &|| case.detail(&der));
+    let got: Vec<(Vec<u8>, Vec<u8>)> = catch(|| decoded.content().iter().map(|f| (f.file().to_vec(), f.hash().to_vec())).collect()).unwrap_or_default();
+    echo(ctx, "manifest.files", got == files);
+    echo(ctx, "manifest.len", decoded.content().len() == n);
+    echo(ctx, "manifest.number", decoded.content().manifest_number() == number);
+    ctx.sample(kind, || {
+        json!({"files": n, "first_file": files.first().map(|f| String::from_utf8_lossy(&f.0).to_string()), "manifest_number": gen::serial_json(number),
+               "this_update": gen::time_str(this_update), "next_update": gen::time_str(next_update), "der_len": der.len(),
+               "observed": format!("decoded strictly, validated at {}, re-encoded identically, {} accessor rows compared, {} differing", at_s, rows, bad)})
+    });
+}
+
+/// Mirrors how the library collects blocks: a new block is merged into the
+/// first element it touches. Returns false if adding `b` would leave two
+/// overlapping elements — the situation of known defect F1 (collection of
+/// unsorted bridging blocks, property C03), which this monitor keeps out of
+/// its inputs on purpose.
+fn f1_safe_add(elems: &mut Vec<(u128, u128)>, b: (u128, u128)) -> bool {
+    let mut trial = elems.clone();
+    let touches = |x: &(u128, u128), y: &(u128, u128)| x.0 <= y.1.saturating_add(1) && y.0 <= x.1.saturating_add(1);
+    match trial.iter().position(|e| touches(e, &b)) {
+        Some(i) => trial[i] = (trial[i].0.min(b.0), trial[i].1.max(b.1)),
+        None => trial.push(b),
+    }
+    for i in 0..trial.len() {
+        for j in (i + 1)..trial.len() {
+            if trial[i].0 <= trial[j].1 && trial[j].0 <= trial[i].1 {
+                return false;
+            }
+        }
+    }
+    *elems = trial;
+    true
+}
+
+/// ROA prefixes of one family: (address bits in library layout, length, max length).
+fn roa_prefixes(rng: &mut Rng, fam_bits: u8, n: usize) -> Vec<(u128, u8, Option<u8>)> {
+    let mut out: Vec<(u128, u8, Option<u8>)> = Vec::new();
+    let mut elems: Vec<(u128, u128)> = Vec::new();
+    // a narrow region makes nesting, duplicates and neighbours frequent
+    let region: u128 = rng.next_u128() & !(u128::MAX >> 12);
+    let mut tries = 0;
+    while out.len() < n && tries < n * 20 + 20 {
+        tries += 1;
+        let cand = if !out.is_empty() && rng.chance(1, 5) {
+            *rng.pick(&out) // duplicate (maybe with another max length below)
+        } else {
+            let len: u8 = match rng.below(8) {
+                0 => *rng.pick(&[0u8, 1, 8, 12]),
+                1 => fam_bits,
+                2 => fam_bits - 1,
+                _ => 12 + (rng.below((fam_bits - 12) as u64 + 1) as u8),
+            };
+            let raw = if rng.chance(1, 6) { rng.next_u128() } else { region | (rng.next_u128() >> 12 & !(u128::MAX >> 20 >> (rng.below(20) as u32))) };
+            let addr = if len == 0 { 0 } else { raw & !(u128::MAX.checked_shr(len as u32).unwrap_or(0)) };
+            (addr, len, None)
+        };
+        let (addr, len, _) = cand;
+        let max_len = match rng.below(4) {
+            0 => None,
+            1 => Some(len),
+            2 => Some(fam_bits),
+            _ => Some(len + rng.below((fam_bits - len) as u64 + 1) as u8),
+        };
+        let hi = addr | u128::MAX.checked_shr(len as u32).unwrap_or(0);
+        if f1_safe_add(&mut elems, (addr, hi)) {
+            out.push((addr, len, max_len));
+        }
+    }
+    out
+}
+
+fn roa_inputs(rng: &mut Rng) -> (u32, Vec<(u128, u8, Option<u8>)>, Vec<(u128, u8, Option<u8>)>, [String; 2]) {
+    let asn = gen::asn(rng);
+    let pick_n = |rng: &mut Rng| match rng.below(6) {
+        0 => 1,
+        1 => 2,
+        2 => 40 + rng.usize_below(60),
+        _ => 1 + rng.usize_below(12),
+    };
+    let (n4, n6) = match rng.below(4) {
+        0 => (pick_n(rng), 0),
+        1 => (0, pick_n(rng)),
+        _ => (pick_n(rng), pick_n(rng)),
+    };
+    let v4 = roa_prefixes(rng, 32, n4);
+    let v6 = roa_prefixes(rng, 128, n6);
+    let mlc = |v: &[(u128, u8, Option<u8>)]| {
+        let mut s = String::new();
+        if v.iter().any(|x| x.2.is_none()) {
+            s.push('-');
+        }
+        if v.iter().any(|x| x.2 == Some(x.1)) {
+            s.push('=');
+        }
+        if v.iter().any(|x| x.2.map(|m| m > x.1).unwrap_or(false)) {
+            s.push('>');
+        }
+        let mut seen = std::collections::HashSet::new();
+        if v.iter().any(|x| !seen.insert((x.0, x.1))) {
+            s.push('d');
+        }
+        s
+    };
+    let class = [mlc(&v4), mlc(&v6)];
+    (asn, v4, v6, class)
+}
+
+fn do_roa(ctx: &mut Ctx, env: &Env, rng: &mut Rng) {
+    let kind = "roa";
+    let (asn, v4, v6, list_class) = roa_inputs(rng);
+    if v4.is_empty() && v6.is_empty() {
+        return; // the generator could not place any prefix (cannot happen for n >= 1)
+    }
+    let around_now = rng.bool();
+    let so = sigobj_inputs(env, rng, "roa", around_now);
+    let api = rng.below(3);
+    let pj = |v: &[(u128, u8, Option<u8>)], v4: bool| -> Vec<Value> {
+        v.iter()
+            .map(|&(a, l, m)| {
+                let ip = if v4 { IpAddr::V4(Ipv4Addr::from((a >> 96) as u32)) } else { IpAddr::V6(Ipv6Addr::from(a)) };
+                json!(format!("{}/{}{}", ip, l, m.map(|m| format!("-{}", m)).unwrap_or_default()))
+            })
+            .collect()
+    };
+    let inputs = json!({"as_id": asn, "v4": pj(&v4, true), "v6": pj(&v6, false), "api_path": api, "signed_object": so.json,
+                        "validator": if around_now { "Roa::process (Time::now inside the window)" } else { "SignedObject::validate_at" }});
+    let case = Case { kind, inputs: &inputs };
+    let win_at = so.win.at;
+    let builder = so.builder;
+    let built = build(ctx, &case, "RoaBuilder::finalize", || {
+        let mut roa = match api {
+            0 => {
+                let mut b = RoaBuilder::new(Asn::from_u32(asn));
+                for &(a, l, m) in &v4 {
+                    b.push_v4_addr(Ipv4Addr::from((a >> 96) as u32), l, m);
+                }
+                for &(a, l, m) in &v6 {
+                    b.push_addr(IpAddr::V6(Ipv6Addr::from(a)), l, m);
+                }
+                b
+            }
+            1 => {
+                let mut b4 = RoaIpAddressesBuilder::new();
+                b4.extend(v4.iter().map(|&(a, l, m)| RoaIpAddress::new(Prefix::new(a, l), m)));
+                let mut b6 = RoaIpAddressesBuilder::default();
+                for &(a, l, m) in &v6 {
+                    b6.push_addr(IpAddr::V6(Ipv6Addr::from(a)), l, m);
+                }
+                RoaBuilder::with_addresses(Asn::from_u32(asn), b4, b6)
+            }
+            _ => {
+                let mut b = RoaBuilder::new(Asn::from_u32(0));
+                b.set_as_id(Asn::from_u32(asn));
+                let a4: Vec<RoaIpAddress> = v4.iter().map(|&(a, l, m)| RoaIpAddress::new(Prefix::new(a, l), m)).collect();
+                b.extend_v4_from_slice(&a4);
+                for &(a, l, m) in &v6 {
+                    b.push_v6(RoaIpAddress::new_addr(IpAddr::V6(Ipv6Addr::from(a)), l, m));
+                }
+                b
+            }
+        };
+        let _ = &mut roa;
+        roa.finalize(builder, &env.pool, &K_ISSUER).map_err(|e| e.to_string())
+    });
+    ctx.drain_chain_hook(|| json!({"kind": kind, "phase": "build", "inputs": inputs.clone()}));
+    let Some(built) = built else { return };
+    let Some(der) = build(ctx, &case, "Roa::to_captured", || Ok(built.to_captured().into_bytes().to_vec())) else { return };
+    {
+        let mut fine = fine_refs(&so.fine);
+        fine.push(("as_id", if asn == 0 { "0" } else if asn == u32::MAX { "max" } else { "other" }));
+        fine.push(("v4-maxlen", &list_class[0]));
+        fine.push(("v6-maxlen", &list_class[1]));
+        fine.push(("api", ["push_addr", "with_addresses", "extend_from_slice"][api as usize]));
+        fine.push(("validator", if around_now { "Roa::process" } else { "SignedObject::validate_at" }));
+        classes(ctx, kind, &[size_class(v4.len()), size_class(v6.len()), &so.coarse], &fine);
+    }
+    let Some(decoded) = decode(ctx, &case, &der, || Roa::decode(der.as_slice(), true).map_err(|e| e.to_string())) else { return };
+    let at_s = gen::time_str(win_at);
+    if around_now {
+        let d = decoded.clone();
+        validate(ctx, &case, &der, "Time::now()", || d.process(&env.ta, true, |_| Ok(())).map(|_| ()).map_err(|e| e.to_string()));
+    } else {
+        validate(ctx, &case, &der, &at_s, || {
+            let so = SignedObject::decode(der.as_slice(), true).map_err(|e| e.to_string())?;
+            so.validate_at(&env.ta, true, win_at).map(|_| ()).map_err(|e| e.to_string())
+        });
+    }
+    ctx.drain_chain_hook(|| json!({"kind": kind, "phase": "validate", "inputs": inputs.clone()}));
+    reencode(ctx, &case, &der, || decoded.to_captured().into_bytes().to_vec());
+    let mut table = tab::roa_table();
+    if around_now {
+        let ta = env.ta.clone();
+        tab::push_row(&mut table, "process(now)", move |r: &Roa| match r.clone().process(&ta, true, |_| Ok(())) {
+            Ok((rc, att)) => format!("{} as_id={} prefixes={}", tab::rescert(&rc), att.as_id(), att.iter().count()),
+            Err(e) => format!("rejected: {}", e),
+        });
+    }
+    let (rows, bad) = tab::compare(ctx, &table, &built, &decoded, &|| case.detail(&der));
+    let want4: Vec<(u128, u8, Option<u8>)> = v4.clone();
+    let got4: Vec<(u128, u8, Option<u8>)> =
+        catch(|| decoded.content().v4_addrs().iter().map(|a| (a.prefix().addr().to_bits(), a.prefix().addr_len(), a.max_length())).collect()).unwrap_or_default();
+    let got6: Vec<(u128, u8, Option<u8>)> =
+        catch(|| decoded.content().v6_addrs().iter().map(|a| (a.prefix().addr().to_bits(), a.prefix().addr_len(), a.max_length())).collect()).unwrap_or_default();
+    echo(ctx, "roa.v4", got4 == want4);
+    echo(ctx, "roa.v6", got6 == v6);
+    echo(ctx, "roa.as_id", decoded.content().as_id().into_u32() == asn);
+    ctx.sample(kind, || {
+        json!({"as_id": asn, "v4": pj(&v4, true).into_iter().take(6).collect::<Vec<_>>(), "v6": pj(&v6, false).into_iter().take(6).collect::<Vec<_>>(),
+               "v4_count": v4.len(), "v6_count": v6.len(), "der_len": der.len(),
+               "observed": format!("decoded strictly, validated ({}), re-encoded identically, {} accessor rows compared, {} differing",
+                                   if around_now { "Roa::process now".to_string() } else { format!("at {}", at_s) }, rows, bad)})
+    });
+}
+
+fn do_aspa(ctx: &mut Ctx, env: &Env, rng: &mut Rng) {
+    let kind = "aspa";
+    let customer = gen::asn(rng);
+    let n = match rng.below(8) {
+        0 => 1,
+        1 => 2,
+        2 => 200,
+        3 => 100 + rng.usize_below(100),
+        _ => 1 + rng.usize_below(30),
+    };
+    let mut set = std::collections::BTreeSet::new();
+    while set.len() < n {
+        let p = if rng.chance(1, 3) { gen::asn(rng) } else { rng.next_u32() };
+        if p != customer {
+            set.insert(p);
+        }
+    }
+    let mut providers: Vec<u32> = set.into_iter().collect();
+    let order = rng.below(3);
+    match order {
+        0 => {}
+        1 => providers.reverse(),
+        _ => rng.shuffle(&mut providers),
+    }
+    let one_by_one = rng.bool();
+    let around_now = rng.bool();
+    let so = sigobj_inputs(env, rng, "asa", around_now);
+    let inputs = json!({"customer_as": customer, "providers_in_insertion_order": providers, "api_path": if one_by_one { "empty+add_provider" } else { "new(vec)" },
+                        "signed_object": so.json,
+                        "validator": if around_now { "Aspa::process (Time::now inside the window)" } else { "SignedObject::validate_at" }});
+    let case = Case { kind, inputs: &inputs };
+    let win_at = so.win.at;
+    let builder = so.builder;
+    let built = build(ctx, &case, "AspaBuilder::finalize", || {
+        let b = if one_by_one {
+            let mut b = AspaBuilder::empty(Asn::from_u32(customer));
+            for p in &providers {
+                b.add_provider(Asn::from_u32(*p)).map_err(|e| e.to_string())?;
+            }
+            b
+        } else {
+            AspaBuilder::new(Asn::from_u32(customer), providers.iter().map(|p| Asn::from_u32(*p)).collect::<Vec<_>>()).map_err(|e| e.to_string())?
+        };
+        b.finalize(builder, &env.pool, &K_ISSUER).map_err(|e| e.to_string())
+    });
+    ctx.drain_chain_hook(|| json!({"kind": kind, "phase": "build"}));
+    let Some(built) = built else { return };
+    let Some(der) = build(ctx, &case, "Aspa::to_captured", || Ok(built.to_captured().into_bytes().to_vec())) else { return };
+    {
+        let mut fine = fine_refs(&so.fine);
+        fine.push(("customer", if customer == 0 { "0" } else if customer == u32::MAX { "max" } else { "other" }));
+        fine.push(("validator", if around_now { "Aspa::process" } else { "SignedObject::validate_at" }));
+        classes(
+            ctx,
+            kind,
+            &[size_class(n), ["sorted", "reversed", "shuffled"][order as usize], if one_by_one { "add_provider" } else { "new(vec)" }, &so.coarse],
+            &fine,
+        );
+    }
+    let Some(decoded) = decode(ctx, &case, &der, || Aspa::decode(der.as_slice(), true).map_err(|e| e.to_string())) else { return };
+    let at_s = gen::time_str(win_at);
+    if around_now {
+        let d = decoded.clone();
+        validate(ctx, &case, &der, "Time::now()", || d.process(&env.ta, true, |_| Ok(())).map(|_| ()).map_err(|e| e.to_string()));
+    } else {
+        validate(ctx, &case, &der, &at_s, || {
+            let so = SignedObject::decode(der.as_slice(), true).map_err(|e| e.to_string())?;
+            so.validate_at(&env.ta, true, win_at).map(|_| ()).map_err(|e| e.to_string())
+        });
+    }
+    ctx.drain_chain_hook(|| json!({"kind": kind, "phase": "validate"}));
+    reencode(ctx, &case, &der, || decoded.to_captured().into_bytes().to_vec());
+    let mut table = tab::aspa_table();
+    if around_now {
+        let ta = env.ta.clone();
+        tab::push_row(&mut table, "process(now)", move |a: &Aspa| match a.clone().process(&ta, true, |_| Ok(())) {
+            Ok((rc, att)) => format!("{} customer={} providers={}", tab::rescert(&rc), att.customer_as(), att.provider_as_set().len()),
+            Err(e) => format!("rejected: {}", e),
+        });
+    }
+    let (rows, bad) = tab::compare(ctx, &table, &built, &decoded, &|| case.detail(&der));
+    let mut want = providers.clone();
+    want.sort();
+    let got: Vec<u32> = catch(|| decoded.content().provider_as_set().iter().map(|a| a.into_u32()).collect()).unwrap_or_default();
+    echo(ctx, "aspa.providers", got == want);
+    echo(ctx, "aspa.customer", decoded.content().customer_as().into_u32() == customer);
+    ctx.sample(kind, || {
+        json!({"customer_as": customer, "providers": providers.iter().take(8).collect::<Vec<_>>(), "provider_count": n, "der_len": der.len(),
+               "observed": format!("decoded strictly, validated ({}), re-encoded identically, {} accessor rows compared, {} differing",
+                                   if around_now { "Aspa::process now".to_string() } else { format!("at {}", at_s) }, rows, bad)})
+    });
+}
+
+//------------ CSR -----------------------------------------------------------
+
+fn do_csr(ctx: &mut Ctx, env: &Env, rng: &mut Rng) {
+    let dir = !rng.chance(1, 5);
+    let kind: &'static str = if dir { "csr" } else { "csr-repo-without-trailing-slash" };
+    let repo = if dir { gen::rsync(rng, true, "") } else { gen::rsync(rng, false, "d") };
+    let mft = gen::rsync(rng, false, "mft");
+    let notify = if rng.chance(2, 3) { Some(gen::https(rng)) } else { None };
+    let key = K_SUBJECT + rng.usize_below(2);
+    let inputs = json!({"ca_repository": repo.as_str(), "rpki_manifest": mft.as_str(), "rpki_notify": notify.as_ref().map(|u| u.as_str().to_string()), "key": key});
+    let case = Case { kind, inputs: &inputs };
+    let built = build(ctx, &case, "Csr::construct_rpki_ca", || {
+        Csr::construct_rpki_ca(&env.pool, &key, &repo, &mft, notify.as_ref()).map(|c| c.into_bytes().to_vec()).map_err(|e| e.to_string())
+    });
+    let Some(der) = built else { return };
+    ctx.sig(&format!("{}|notify={}|uri-len={}", kind, notify.is_some(), if repo.as_str().len() + mft.as_str().len() > 250 { "long" } else { "short" }));
+    let Some(decoded) = decode(ctx, &case, &der, || RpkiCaCsr::decode(der.as_slice()).map_err(|e| e.to_string())) else { return };
+    validate(ctx, &case, &der, "n/a (proof of possession)", || decoded.verify_signature().map_err(|e| e.to_string()));
+    reencode(ctx, &case, &der, || decoded.to_captured().into_bytes().to_vec());
+    // The builder returns bytes only; the twin of the decoded value is the
+    // value decoded from its own re-encoding.
+    let twin = catch(|| RpkiCaCsr::decode(decoded.to_captured().as_slice()).ok()).ok().flatten();
+    let mut rows = 0;
+    let mut bad = 0;
+    if let Some(twin) = twin {
+        let table = tab::csr_table();
+        let r = tab::compare(ctx, &table, &decoded, &twin, &|| case.detail(&der));
+        rows = r.0;
+        bad = r.1;
+    }
+    // ... and the inputs are the only "built" view: they must come back.
+    let check = |ctx: &mut Ctx, field: &str, ok: bool, got: String, want: String| {
+        ctx.eval();
+        if !ok {
+            ctx.violation(
+                &format!("C05:csr-input-not-echoed:{}", field),
+                &format!("csr: decoded `{}` is {} but the builder was given {}", field, got, want),
+                case.detail(&der),
+            );
+        }
+    };
+    let got_repo = decoded.ca_repository().map(|u| u.as_str().to_string());
+    let repo_ok = match &got_repo {
+        Some(g) => g == repo.as_str() || (!dir && *g == format!("{}/", repo.as_str())),
+        None => false,
+    };
+    check(ctx, "ca_repository", repo_ok, format!("{:?}", got_repo), repo.as_str().to_string());
+    let got_mft = decoded.rpki_manifest().map(|u| u.as_str().to_string());
+    check(ctx, "rpki_manifest", got_mft.as_deref() == Some(mft.as_str()), format!("{:?}", got_mft), mft.as_str().to_string());
+    let got_notify = decoded.rpki_notify().map(|u| u.as_str().to_string());
+    let want_notify = notify.as_ref().map(|u| u.as_str().to_string());
+    check(ctx, "rpki_notify", got_notify == want_notify, format!("{:?}", got_notify), format!("{:?}", want_notify));
+    check(ctx, "public_key", *decoded.public_key() == env.pool.info(key), "another key".into(), "pool key".into());
+    check(ctx, "basic_ca", decoded.basic_ca(), "false".into(), "true".into());
+    check(ctx, "key_usage", decoded.key_usage() == KeyUsage::Ca, format!("{:?}", decoded.key_usage()), "Ca".into());
+    ctx.sample(kind, || {
+        json!({"inputs": inputs.clone(), "der_len": der.len(),
+               "observed": format!("decoded, signature verified, re-encoded identically, inputs echoed, {} accessor rows compared with the re-decoded twin, {} differing", rows, bad)})
+    });
+}
+
+//------------ identity certificates and signed messages ----------------------
+
+fn do_idcert(ctx: &mut Ctx, env: &Env, rng: &mut Rng, ta: bool) {
+    let kind: &'static str = if ta { "idcert-ta" } else { "idcert-ee" };
+    let win = gen::window(rng);
+    let issuing = K_SUBJECT;
+    let ee_key_idx = K_ONE_OFF + rng.usize_below(POOL - K_ONE_OFF);
+    let inputs = json!({"validity": gen::validity_json(win.validity), "validate_at": gen::time_str(win.at), "issuing_key": issuing,
+                        "ee_key": if ta { Value::Null } else { json!(ee_key_idx) }});
+    let case = Case { kind, inputs: &inputs };
+    let ee_key = env.pool.info(ee_key_idx);
+    let built = build(ctx, &case, if ta { "IdCert::new_ta" } else { "IdCert::new_ee" }, || {
+        if ta {
+            IdCert::new_ta(win.validity, &issuing, &env.pool).map_err(|e| e.to_string())
+        } else {
+            IdCert::new_ee(&ee_key, win.validity, &issuing, &env.pool).map_err(|e| e.to_string())
+        }
+    });
+    let Some(built) = built else { return };
+    let Some(der) = build(ctx, &case, "IdCert::to_captured", || Ok(built.to_captured().into_bytes().to_vec())) else { return };
+    classes(ctx, kind, &[&win.enc], &[("time", &win.class)]);
+    let Some(decoded) = decode(ctx, &case, &der, || IdCert::decode(der.as_slice()).map_err(|e| e.to_string())) else { return };
+    let at = win.at;
+    let at_s = gen::time_str(at);
+    let issuer_key = env.pool.info(issuing);
+    validate(ctx, &case, &der, &at_s, || {
+        if ta {
+            decoded.validate_ta_at(at).map_err(|e| e.to_string())
+        } else {
+            decoded.validate_ee_at(&issuer_key, at).map_err(|e| e.to_string())
+        }
+    });
+    reencode(ctx, &case, &der, || decoded.to_captured().into_bytes().to_vec());
+    let mut table = tab::idcert_table(kind);
+    {
+        let key = issuer_key.clone();
+        tab::push_row(&mut table, "validate_at(window instant)", move |c: &IdCert| {
+            format!("{:?}", if ta { c.validate_ta_at(at) } else { c.validate_ee_at(&key, at) }.map_err(|e| e.to_string()))
+        });
+    }
+    let (rows, bad) = tab::compare(ctx, &table, &built, &decoded, &|| case.detail(&der));
+    echo(ctx, "idcert.validity", *decoded.validity() == win.validity);
+    echo(ctx, "idcert.key", *decoded.public_key() == if ta { issuer_key.clone() } else { ee_key.clone() });
+    ctx.sample(kind, || {
+        json!({"inputs": inputs.clone(), "der_len": der.len(),
+               "observed": format!("decoded, validated at {}, re-encoded identically, {} accessor rows compared, {} differing", at_s, rows, bad)})
+    });
+}
+
+fn sigmsg_checks(ctx: &mut Ctx, env: &Env, case: &Case, built: &SignedMessage, der: &[u8], at: Time, at_s: &str) -> Option<(u64, u64)> {
+    let issuer_key = env.pool.info(K_SUBJECT);
+    let decoded = decode(ctx, case, der, || SignedMessage::decode(der, true).map_err(|e| e.to_string()))?;
+    validate(ctx, case, der, at_s, || decoded.validate_at(&issuer_key, at).map_err(|e| e.to_string()));
+    reencode(ctx, case, der, || decoded.to_captured().into_bytes().to_vec());
+    let mut table = tab::sigmsg_table(case.kind);
+    {
+        let key = issuer_key.clone();
+        tab::push_row(&mut table, "validate_at(window instant)", move |m: &SignedMessage| format!("{:?}", m.validate_at(&key, at).map_err(|e| e.to_string())));
+    }
+    Some(tab::compare(ctx, &table, built, &decoded, &|| case.detail(der)))
+}
+
+fn do_sigmsg(ctx: &mut Ctx, env: &Env, rng: &mut Rng) {
+    let kind = "signed-message";
+    let win = gen::window(rng);
+    let len = match rng.below(6) {
+        0 => 0,
+        1 => 1,
+        2 => 127,
+        3 => 128,
+        4 => 70_000,
+        _ => rng.usize_below(3000),
+    };
+    let data = rng.bytes(len);
+    env.pool.set_next_one_off(K_ONE_OFF + rng.usize_below(POOL - K_ONE_OFF));
+    let inputs = json!({"content": if len <= 4096 { json!(hex(&data)) } else { json!(format!("{} pseudo-random bytes from rng purpose 'objects'", len)) },
+                        "validity": gen::validity_json(win.validity), "validate_at": gen::time_str(win.at), "issuing_key": K_SUBJECT});
+    let case = Case { kind, inputs: &inputs };
+    let built = build(ctx, &case, "SignedMessage::create", || {
+        SignedMessage::create(Bytes::from(data.clone()), win.validity, &K_SUBJECT, &env.pool).map_err(|e| e.to_string())
+    });
+    let Some(built) = built else { return };
+    let Some(der) = build(ctx, &case, "SignedMessage::to_captured", || Ok(built.to_captured().into_bytes().to_vec())) else { return };
+    classes(ctx, kind, &[size_class(len), &win.enc], &[("time", &win.class)]);
+    let at_s = gen::time_str(win.at);
+    if let Some((rows, bad)) = sigmsg_checks(ctx, env, &case, &built, &der, win.at, &at_s) {
+        echo(ctx, "sigmsg.content", built.content().to_bytes().as_ref() == data.as_slice());
+        ctx.sample(kind, || {
+            json!({"content_len": len, "validity": gen::validity_json(win.validity), "der_len": der.len(),
+                   "observed": format!("decoded strictly, validated at {}, re-encoded identically, {} accessor rows compared, {} differing", at_s, rows, bad)})
+        });
+    }
+}
+
+/// `ProvisioningCms::decode` / `PublicationCms::decode` always decode in
+/// relaxed (BER) mode; bcder refuses to re-emit values captured in BER mode
+/// into a DER encoding. The property's re-encoding leg is therefore decided
+/// on the strictly decoded `SignedMessage` (see `sigmsg_checks`); what the
+/// relaxed twin does is recorded, not judged.
+fn relaxed_reencode(ctx: &mut Ctx, der: &[u8], f: impl FnOnce() -> Vec<u8>) {
+    match catch(f) {
+        Ok(b) if b == der => ctx.obs("relaxed_decoded_cms.to_bytes:identical", 1),
+        Ok(_) => ctx.obs("relaxed_decoded_cms.to_bytes:differs", 1),
+        Err(p) => {
+            ctx.obs("relaxed_decoded_cms.to_bytes:panics", 1);
+            let note = format!(
+                "observation (not judged): to_bytes() of a ProvisioningCms/PublicationCms obtained from their own decode() panics ({}); decode() is hard-wired to relaxed BER mode and a BER-captured value cannot be written into a DER encoding. The strict SignedMessage::decode twin re-encodes fine.",
+                panic_location(&p)
+            );
+            if !ctx.notes.contains(&note) {
+                ctx.notes.push(note);
+            }
+        }
+    }
+}
+
+fn handle_chars(rng: &mut Rng) -> String {
+    const H: &[u8] = b"abcdefghijklmnopqrstuvwxyzABCDEFGHIJKLMNOPQRSTUVWXYZ0123456789-_";
+    let n = 1 + rng.usize_below(30);
+    (0..n).map(|_| *rng.pick(H) as char).collect()
+}
+
+fn do_cms(ctx: &mut Ctx, env: &Env, rng: &mut Rng, provisioning: bool) {
+    let kind: &'static str = if provisioning { "provisioning-cms" } else { "publication-cms" };
+    env.pool.set_next_one_off(K_ONE_OFF + rng.usize_below(POOL - K_ONE_OFF));
+    let issuer_key = env.pool.info(K_SUBJECT);
+    if provisioning {
+        let (s, r) = (handle_chars(rng), handle_chars(rng));
+        let inputs = json!({"message": "list", "sender": s, "recipient": r, "issuing_key": K_SUBJECT});
+        let case = Case { kind, inputs: &inputs };
+        let (Ok(sender), Ok(recipient)) = (SenderHandle::from_str(&s), RecipientHandle::from_str(&r)) else { return };
+        let msg = ProvMessage::list(sender, recipient);
+        let built = build(ctx, &case, "ProvisioningCms::create", || ProvisioningCms::create(msg.clone(), &K_SUBJECT, &env.pool).map_err(|e| e.to_string()));
+        let Some(built) = built else { return };
+        let Some(der) = build(ctx, &case, "ProvisioningCms::to_bytes", || Ok(built.to_bytes().to_vec())) else { return };
+        ctx.sig("provisioning-cms|list");
+        let Some(decoded) = decode(ctx, &case, &der, || ProvisioningCms::decode(&der).map_err(|e| e.to_string())) else { return };
+        // the builder chose now +- 5 minutes; the only instant known to be inside is now
+        let now = Time::now();
+        validate(ctx, &case, &der, "Time::now()", || decoded.validate_at(&issuer_key, now).map_err(|e| e.to_string()));
+        relaxed_reencode(ctx, &der, || decoded.to_bytes().to_vec());
+        ctx.eval();
+        if decoded.message() != built.message() || *decoded.message() != msg {
+            ctx.violation("C05:accessor-differs:provisioning-cms.message", "provisioning-cms: message() differs between built and decoded", case.detail(&der));
+        }
+        let (sm, _) = built.unpack();
+        let r = sigmsg_checks(ctx, env, &case, &sm, &der, now, "Time::now()");
+        ctx.sample(kind, || json!({"inputs": inputs.clone(), "der_len": der.len(), "observed": format!("decoded, validated now, re-encoded identically, message equal, signed-message rows {:?}", r)}));
+    } else {
+        let which = rng.below(3);
+        let msg = match which {
+            0 => PubMessage::list_query(),
+            1 => PubMessage::success(),
+            _ => {
+                let mut d = PublishDelta::empty();
+                for _ in 0..(1 + rng.usize_below(4)) {
+                    let n = 1 + rng.usize_below(300); // an empty object is not publishable (and is C11's business)
+                    d.add_publish(Publish::with_hash_tag(gen::rsync(rng, false, "roa"), Base64::from_content(&rng.bytes(n))));
+                }
+                PubMessage::delta(d)
+            }
+        };
+        let mname = ["list_query", "success", "delta"][which as usize];
+        let inputs = json!({"message": mname, "xml": msg.to_xml_string(), "issuing_key": K_SUBJECT});
+        let case = Case { kind, inputs: &inputs };
+        let built = build(ctx, &case, "PublicationCms::create", || PublicationCms::create(msg.clone(), &K_SUBJECT, &env.pool).map_err(|e| e.to_string()));
+        let Some(built) = built else { return };
+        let Some(der) = build(ctx, &case, "PublicationCms::to_bytes", || Ok(built.to_bytes().to_vec())) else { return };
+        ctx.sig(&format!("publication-cms|{}", which));
+        let Some(decoded) = decode(ctx, &case, &der, || PublicationCms::decode(&der).map_err(|e| e.to_string())) else { return };
+        let now = Time::now();
+        validate(ctx, &case, &der, "Time::now()", || decoded.validate_at(&issuer_key, now).map_err(|e| e.to_string()));
+        relaxed_reencode(ctx, &der, || decoded.to_bytes().to_vec());
+        ctx.eval();
+        let (sm, built_msg) = built.unpack();
+        if decoded.into_message() != built_msg || built_msg != msg {
+            ctx.violation("C05:accessor-differs:publication-cms.message", "publication-cms: into_message() differs between built and decoded", case.detail(&der));
+        }
+        let r = sigmsg_checks(ctx, env, &case, &sm, &der, now, "Time::now()");
+        ctx.sample(kind, || json!({"message": mname, "der_len": der.len(), "observed": format!("decoded, validated now, re-encoded identically, message equal, signed-message rows {:?}", r)}));
+    }
+}
+
+//------------ driver ---------------------------------------------------------
+
+const KINDS: [&str; 16] = [
+    "cert-ca", "roa", "manifest", "crl", "aspa", "cert-ee", "cert-ta", "roa", "cert-router", "csr", "idcert-ta", "idcert-ee", "signed-message",
+    "cert-detached-ee", "provisioning-cms", "publication-cms",
+];
 
 pub fn run(ctx: &mut Ctx) {
-    ctx.notes.push("C05: monitor not built yet".into());
+    if ctx.no_ffi() {
+        ctx.notes.push("C05: every object needs signatures (aws-lc); no Miri stage".into());
+        return;
+    }
+    let Some(env) = setup(ctx) else { return };
+    // objects per shard: native (quick, thorough), asan, miri, valgrind
+    let n = ctx.stage_budget((32_000, 480_000), 24_000, 0, 80);
+    let mut rng = ctx.rng("objects");
+    // valgrind: one round over the kinds per shard, started at different kinds
+    let offset = if ctx.stage == Stage::Valgrind { (ctx.shard as usize * 3) % KINDS.len() } else { 0 };
+    for i in 0..n as usize {
+        let kind = KINDS[(i + offset) % KINDS.len()];
+        ctx.breadcrumb(&format!("object {} kind {}", i, kind));
+        match kind {
+            "cert-ta" => do_cert(ctx, &env, &mut rng, CertKind::Ta),
+            "cert-ca" => do_cert(ctx, &env, &mut rng, CertKind::Ca),
+            "cert-ee" => do_cert(ctx, &env, &mut rng, CertKind::Ee),
+            "cert-detached-ee" => do_cert(ctx, &env, &mut rng, CertKind::DetachedEe),
+            "cert-router" => do_cert(ctx, &env, &mut rng, CertKind::Router),
+            "crl" => do_crl(ctx, &env, &mut rng),
+            "manifest" => do_manifest(ctx, &env, &mut rng),
+            "roa" => do_roa(ctx, &env, &mut rng),
+            "aspa" => do_aspa(ctx, &env, &mut rng),
+            "csr" => do_csr(ctx, &env, &mut rng),
+            "idcert-ta" => do_idcert(ctx, &env, &mut rng, true),
+            "idcert-ee" => do_idcert(ctx, &env, &mut rng, false),
+            "signed-message" => do_sigmsg(ctx, &env, &mut rng),
+            "provisioning-cms" => do_cms(ctx, &env, &mut rng, true),
+            _ => do_cms(ctx, &env, &mut rng, false),
+        }
+        ctx.obs("objects", 1);
+        ctx.obs(&format!("objects:{}", kind), 1);
+    }
+    ctx.obs("signatures_made", env.pool.signatures.get());
 }
